@@ -121,6 +121,8 @@ def run(out, tier, model_ok=True):
       m4 = 4 * rng.randint(1, 5)
       px = np.array([100.0 + 5 * (1 if j % 2 == 0 else -1) for j in range(m4)])
       py = np.array([50.0 + 3 * (1 if (j // 2) % 2 == 0 else -1) for j in range(m4)])
+    if i % 3 == 1:
+      py = float(py.max() + py.min()) - py      # a response that moves against the control series (negative correlation)
     if i % 5 == 0:
       lo_levels = [0.3, 0.2, 0.45]     # sig + power <= 1: the antitone clause is a recorded finding there
       sig, pw = rng.choice(lo_levels), rng.choice(lo_levels)
